@@ -155,6 +155,7 @@ def showFault : Fault → String
   | .slice s => s!"slice@{s}"
   | .divZero s => s!"divzero@{s}"
   | .unwrapNone s => s!"unwrap@{s}"
+  | .overflow s => s!"overflow@{s}"
   | .entryMissing => "entry-missing"
   | .sigPayloadNone => "sig-payload-none"
   | .aliasMissing => "alias-missing"
